@@ -173,6 +173,7 @@ Definition error_tostring (name msg : option (list Z)) : list Z :=
 Definition spec_text (t : thrown) : list Z :=
   match t with
   | ThError _ _ cn cm => error_tostring cn cm
+  | ThDerived _ _ cn cm => error_tostring cn cm
   | ThOther s => s
   end.
 
